@@ -96,7 +96,7 @@ def unique_arrs_and_bases(
             # We must yield array bases first so that base's
             # writeability is restored first.
             # Then view's writeability can be restored
-            if arr.base is not None:
+            if isinstance(arr.base, np.ndarray):
                 base_id = id(arr.base)
                 if base_id not in seen:
                     seen.add(base_id)
@@ -119,7 +119,7 @@ def _release_lock_on_arr_writeability(arr: np.ndarray):
         # okay to unlock array
         del _array_counter[arr_id]
 
-        if arr.base is not None and arr.base.flags.writeable is False:
+        if isinstance(arr.base, np.ndarray) and arr.base.flags.writeable is False:
             # Array is view and must wait until its base is released
             # before it can be unlocked
             # Thus we are still tracking this array
